@@ -100,6 +100,8 @@ struct Run<S: Stream + Unpin> {
     ended: bool,
     errored: bool,
     execs: Vec<Exec>,
+    /// the handler tasks are not scheduled during the next poll (a busy executor runs them later)
+    skip_handlers_once: bool,
 }
 
 fn cx() -> Context<'static> {
@@ -167,7 +169,11 @@ where
                 }
             }
         }
-        self.poll_handlers();
+        if self.skip_handlers_once {
+            self.skip_handlers_once = false;
+        } else {
+            self.poll_handlers();
+        }
     }
     fn poll_handlers(&mut self) {
         let mut i = 0;
@@ -341,13 +347,13 @@ fn scripts(max_len: usize) -> Vec<Vec<Msg>> {
     out
 }
 
-fn one(script: &[Msg], polls: u32, release_rev: bool, release_before_last: bool, gated: bool, limit: Option<usize>, half_close: bool) -> Result<(), Vec<String>> {
-    let desc = format!("script {script:?}, polls {polls:#b}, release_rev {release_rev}, release_before_last {release_before_last}, gated {gated}, limit {limit:?}, half_close {half_close}");
+fn one(script: &[Msg], polls: u32, release_rev: bool, release_before_last: bool, gated: bool, limit: Option<usize>, half_close: bool, late_tasks: bool) -> Result<(), Vec<String>> {
+    let desc = format!("script {script:?}, polls {polls:#b}, release_rev {release_rev}, release_before_last {release_before_last}, gated {gated}, limit {limit:?}, half_close {half_close}, handler tasks scheduled late after a cancel {late_tasks}");
     let shared = Arc::new(Mutex::new(Shared { gate_open: true, ..Default::default() }));
     let base = BaseChannel::with_defaults(T(shared.clone()));
     macro_rules! drive {
         ($requests:expr, $in_flight:expr) => {{
-            let mut run = Run { shared: shared.clone(), requests: $requests, ended: false, errored: false, execs: vec![] };
+            let mut run = Run { shared: shared.clone(), requests: $requests, ended: false, errored: false, execs: vec![], skip_handlers_once: false };
             if gated {
                 shared.lock().unwrap().gate_open = false;
             }
@@ -367,6 +373,8 @@ fn one(script: &[Msg], polls: u32, release_rev: bool, release_before_last: bool,
                     Msg::Cancel(id) => ClientMessage::Cancel { trace_context: Default::default(), request_id: *id },
                 });
                 if polls & (1 << i) != 0 {
+                    // an aborted handler's task may get to run only after the channel has read the next message
+                    run.skip_handlers_once = late_tasks && matches!(m, Msg::Cancel(_));
                     run.poll();
                 }
             }
@@ -423,9 +431,12 @@ fn server_wire_scripts() {
                 for release_before_last in [false, true] {
                     for gated in [false, true] {
                         for limit in [None, Some(1usize)] {
-                            for half_close in [false, true] {
+                            for (half_close, late_tasks) in [(false, false), (true, false), (false, true), (true, true)] {
+                                if late_tasks && !script.iter().any(|m| matches!(m, Msg::Cancel(_))) {
+                                    continue;
+                                }
                                 evaluations += 1;
-                                if let Err(errs) = one(&script, polls, release_rev, release_before_last, gated, limit, half_close) {
+                                if let Err(errs) = one(&script, polls, release_rev, release_before_last, gated, limit, half_close, late_tasks) {
                                     // keep the first failure of every oracle (by its property prefix), over the whole search, for attribution
                                     for e in errs {
                                         let tag = e.split(':').next().unwrap_or("").to_string();
@@ -444,6 +455,6 @@ fn server_wire_scripts() {
     for (_, e) in &failures {
         println!("VERIF-FAIL {e}");
     }
-    println!("VERIF-BOUNDED server_wire evaluations={evaluations} bound=peer scripts of <= {max_len} messages over {{Req 7, Req 8, Cancel 7, Cancel 8}} x a poll or not after each x handler release order x early release x sink gated|not x limit none|1 x half-close|not");
+    println!("VERIF-BOUNDED server_wire evaluations={evaluations} bound=peer scripts of <= {max_len} messages over {{Req 7, Req 8, Cancel 7, Cancel 8}} x a poll or not after each x handler release order x early release x sink gated|not x limit none|1 x half-close|not x handler tasks prompt|late after a cancel");
     assert!(failures.is_empty(), "{}", failures[0].1);
 }
